@@ -129,6 +129,17 @@ func genC13(tier, out string, sum *Summary) {
 				sum.direct("sort_by", "sort_by(@, &k)", arr, why+"; result "+toJSON(res))
 			}
 			distinct[kind+toJSON(res)] = true
+			// an index, a slice or a pipe after the call sees the same stable order
+			if len(res) > 0 {
+				for _, q := range []struct {
+					e    string
+					want any
+				}{{"sort_by(@, &k)[-1]", res[len(res)-1]}, {"sort_by(@, &k)[0]", res[0]}, {"sort_by(@, &k) | [-1]", res[len(res)-1]}, {"(sort_by(@, &k)[-1:])[0]", res[len(res)-1]}, {"reverse(sort_by(@, &k))[0]", res[len(res)-1]}, {"sort_by(@, &k)[*] | [0]", res[0]}} {
+					if oi := search(q.e, arr); !(oi.Kind == "val" && sameValue(oi.Value, q.want, false)) {
+						sum.direct("sort_by", q.e, arr, "expected "+toJSON(q.want)+" (the stable order), got "+describe(oi))
+					}
+				}
+			}
 		}
 		// sort on the bare keys
 		keys := make([]any, l)
@@ -281,7 +292,7 @@ var _ = sort.Ints
 func randString() string {
 	n := rng.Intn(10)
 	var b strings.Builder
-	pool := []rune{'a', 'b', ' ', '\'', '"', '`', '\\', '\n', '\t', '\r', 0, 1, 0x1f, 0x7f, 0x80, 'é', '€', '😀', 0x10FFFF, 0xFFFD, 0xD7FF, 0xE000, '/', '{', '[', '|', '$', '&', 'u', '0', 'n', '中', 0x301}
+	pool := []rune{'a', 'b', ' ', '\'', '"', '`', '\\', '\n', '\t', '\r', 0, 1, 0x1f, 0x7f, 0x80, 'é', '€', '😀', 0x10FFFF, 0xFFFD, 0xD7FF, 0xE000, '/', '{', '[', '|', '$', '&', 'u', '0', 'n', '中', 0x301, 0xFEFF, 0x200B, 0x2028, 0xA0, 0x85, 0x0B, 0x0C}
 	for i := 0; i < n; i++ {
 		if rng.Intn(4) == 0 { // runs of escapes
 			b.WriteString(pick([]string{`\\`, `\'`, `\"`, "\\`", `\n`, `A`, `😀`, `''`, `""`, "``", `\`}))
@@ -344,6 +355,11 @@ func genC16(tier, out string, sum *Summary) {
 		case 3: // JSON value literal, numbers kept at full precision
 			v := literalValue(2)
 			run("`"+strings.ReplaceAll(toJSONPlain(v), "`", "\\`")+"`", nil, v, "json-literal")
+			// JSON text may be surrounded by white space; strings in it may hold escaped backticks
+			sv := []any{s, map[string]any{s: v}, v}
+			pad := pick([]string{" ", "\n", "\t ", " \r\n"})
+			run("`"+pad+strings.ReplaceAll(toJSONPlain(sv), "`", "\\`")+pad+"`", nil, sv, "json-literal-padded")
+			run("`"+pad+strings.ReplaceAll(jsonQuote(s), "`", "\\`")+"`", nil, s, "json-literal-padded")
 			// numbers keep their spelling: to_string shows the digits
 			num := pick([]string{"1.50", "100000000000000000000000000000000000001", "1e400", "-0.0", "12345678901234567890.123456789"})
 			run("to_string(`"+num+"`)", nil, num, "number-precision")
